@@ -385,7 +385,57 @@ def execute_with_client(case):
     return Result(v, nontrivial=True, classes=["dask-default-client"])
 
 
-PARTS = [Part("configs", None, execute, quick=0, thorough=0, shards=1, exhaustive=enumerate_configs),
+def enumerate_kafka(tier):
+    for nparts in (1, 2):
+        for nmsg in (1, 3):
+            yield {"kafka": True, "nparts": nparts, "nmsg": nmsg}
+
+
+def execute_kafka(case):
+    """the batched Kafka source declared asynchronous: polling, emission and the offset-commit
+    callbacks all stay on the caller's loop and thread (in-memory client of C09)"""
+    from props import c09
+    ck = c09.ck
+    ck.BROKER.reset()
+    ck.BROKER.create(c09.TOPIC, case["nparts"])
+    for p_ in range(case["nparts"]):
+        for o in range(case["nmsg"]):
+            ck.BROKER.produce(c09.TOPIC, p_, ("m", p_, o))
+    v = []
+    before = set(threading.enumerate())
+    loops_before = list(score._io_loops)
+    kcase = {"nparts": case["nparts"], "max_batch": 2, "reset": "earliest", "refresh": False}
+    with c09.Incarnation(kcase, None, None) as inc:
+        main = threading.get_ident()
+        for _ in range(6):
+            while inc.cons.pending:
+                inc.cons.finish(0)
+                inc.loop.drain()
+            nt = inc.loop.next_timer()
+            if nt is None:
+                break
+            inc.loop.advance_to(nt)
+        import time as _t
+        _t.sleep(0.05)   # a stray background thread gets the chance to act
+        commits = [c for c in ck.BROKER.calls if c[0] == "commit"]
+        nodes = pipeline_nodes(inc.kafka_source)
+        if any(n.loop is not IOLoop.current() for n in nodes):
+            v.append(("%s:kafka-source:not-on-callers-loop" % ID, str(case)))
+    new = set(threading.enumerate()) - before
+    if new or list(score._io_loops) != loops_before:
+        v.append(("%s:kafka-source:thread-started-by-async-source" % ID,
+                  "%s: new threads %s, background loops %d -> %d" % (
+                      case, [t.name for t in new], len(loops_before), len(score._io_loops))))
+    if not commits:
+        v.append(("%s:kafka-source:no-commit-on-callers-loop" % ID,
+                  "%s: batches were processed but no offset commit ran while the caller's loop "
+                  "was driven" % case))
+    return Result(v, nontrivial=True, classes=["kafka-source"])
+
+
+PARTS = [Part("kafka-source", None, execute_kafka, quick=0, thorough=0, shards=1,
+              exhaustive=enumerate_kafka),
+         Part("configs", None, execute, quick=0, thorough=0, shards=1, exhaustive=enumerate_configs),
          Part("dask-default-client", None, execute_with_client, quick=0, thorough=0, shards=1,
               exhaustive=enumerate_with_client),
          Part("chains", chain_case, execute, quick=600, thorough=4000, shards=8)]
